@@ -509,6 +509,10 @@ func (fc *FnCtx) doCallWithArgs(cc *ssa.CallCommon, args []Val, pos token.Pos) V
 		}
 		return fc.callFunction(callee.Fn.(*ssa.Function), args, binds, pos, resT)
 	}
+	if isCancelFunc(cc.Value) {
+		fc.noteTrusted("context.CancelFunc: cancelling a context has no effect on the state modelled here")
+		return fc.freshValWF("cancel", resT)
+	}
 	fc.havocAll()
 	return fc.freshValWF("dyn", resT)
 }
